@@ -64,6 +64,16 @@ class SReal(SV):
         return f"SReal({self.z})"
 
 
+class SNum(SReal):
+    """A real number whose Python class is not fixed: a float, an int or a numpy scalar with that value (what an annotation
+    `float` admits).  Arithmetic treats it as the real it denotes; a class test on it is an unknown of its own."""
+
+    __slots__ = ()
+
+    def class_flag(self, name):
+        return z3.Bool(f"is_{name}[{self.z}]")
+
+
 class SBool(SV):
     __slots__ = ("z",)
 
